@@ -35,7 +35,7 @@ CX_ONLY = ['child_attrs(x)', 'child_attrs(n1)', 'child_attrs(n0)', 'child_attrs_
            'customize(type_name)']
 POOL_SIZE = {'full': 8, 'cx': 2, 'prim': 4}
 CX_OPS = ['customize(min_occurs=1)', 'customize(sub_name)', 'child_attrs(x)', 'child_attrs(n1)', 'child_attrs(n0)', 'child_attrs_all', 'child_attrs_all+n1',
-          'subclass', 'append_field', 'insert_field']
+          'child_attrs_noexc', 'subclass', 'append_field', 'insert_field']
 
 
 _SUBCOUNT = [0]
@@ -116,6 +116,8 @@ def operations(tier, cfg='full'):
     op('child_attrs(n1)', lambda m: is_complex(m) and 'n1' not in m.get_flat_type_info(m), lambda m: m.customize(child_attrs={'n1': dict(min_occurs=1)}), None)
     op('child_attrs(n0)', lambda m: is_complex(m) and 'n0' not in m.get_flat_type_info(m), lambda m: m.customize(child_attrs={'n0': dict(max_len=7)}), None)
     op('child_attrs_all', lambda m: is_complex(m), lambda m: m.customize(child_attrs_all=dict(nillable=False)), None)
+    # (a second "all children" record with another content: two levels of customisation must not share one record)
+    op('child_attrs_noexc', lambda m: is_complex(m), lambda m: m.customize(child_attrs_all=dict(exc=True)), None)
     # both kinds of delayed constraints asked for in one customisation
     op('child_attrs_all+n1', lambda m: is_complex(m) and 'n1' not in m.get_flat_type_info(m),
        lambda m: m.customize(child_attrs_all=dict(nillable=False), child_attrs={'n1': dict(min_occurs=1)}), None)
@@ -128,7 +130,6 @@ def operations(tier, cfg='full'):
     op('insert_field', lambda m: is_complex(m) and 'n0' not in m.get_flat_type_info(m), lambda m: (m.insert_field(0, 'n0', Unicode), m)[1], None, kind='evolve')
     if tier == 'thorough':
         op('Iterable(T)', lambda m: True, lambda m: Iterable(m), None)
-        op('child_attrs_noexc', lambda m: is_complex(m), lambda m: m.customize(child_attrs_all=dict(exc=True)), None)
         op('shared-dict', lambda m: True, lambda m: m.customize(**SHARED_ATTRS), {'min_occurs': 1})
     return ops
 
